@@ -469,10 +469,27 @@ BlobConforms(i, cfg) ==
     r.op.op \in {"reopen", "reset", "clear"}
     \/ (Range(post.blobs) = e.blobs /\ GcFn(post) = e.gc)
 
-BlobChecks(i, r) ==
+\* C09: the map holds no entry for a blob file the version does not list - except for files
+\* that left the version through a wholesale drop (with_dropped keeps their entries; pinned
+\* by the repository's blob_tree_nuke_gc_stats test).  bd: ids dropped that way so far.
+GcDomainOk(rst, bd) ==
+    LET sv == rst.hist[Len(rst.hist)] IN
+    {g[1] : g \in Range(sv.gc)} \subseteq Range(sv.blobs) \cup bd
+
+\* blob file ids that left the version through a drop at line i (drop_range, FIFO, Choice::Drop)
+BdNext(bd, i) ==
+    LET r == Rec[i] IN
+    IF r.op.op = "reset" \/ r.ro \/ r.ret # "ok" \/ ~WellFormed(r.st) \/ ~PreWF(i) THEN bd
+    ELSE IF "choice" \in DOMAIN r.info /\ r.info.choice[1] = 3
+         THEN LET prs == Rec[StIdx(i - 1)].st IN
+              bd \cup (Range(prs.hist[Len(prs.hist)].blobs) \ Range(r.st.hist[Len(r.st.hist)].blobs))
+         ELSE bd
+
+BlobChecks(i, r, cfg) ==
     /\ (NoDangling(r.st)      \/ Say("VIOL", "DANGLE", i, [h \in 1..Len(r.st.hist) |-> r.st.hist[h].dangling]))
     /\ (PointersPresent(r.st) \/ Say("VIOL", "PTR", i, r.st.bfs))
     /\ (GcExact(r.st)         \/ Say("VIOL", "GC", i, <<r.st.hist[Len(r.st.hist)].gc, r.st.bfs>>))
+    /\ (GcDomainOk(r.st, cfg.bd) \/ Say("VIOL", "GC", i, <<r.st.hist[Len(r.st.hist)].gc, r.st.hist[Len(r.st.hist)].blobs, cfg.bd>>))
     /\ (StaleIsSum(r)         \/ Say("VIOL", "STALE", i, r.obs.stale_blob_bytes))
     /\ (LinksExact(r.st)      \/ Say("VIOL", "LINKS", i, r.st.tbls))
     /\ (DeadDropped(i)        \/ Say("VIOL", "DEAD", i, r.st.hist[Len(r.st.hist)].blobs))
@@ -538,7 +555,7 @@ StateChecks(i, a, cfg) ==
           \/ ChoiceKind(r) # 1 \/ MergeOutputOk(i, r.op.w, cfg)
           \/ Say("DRIFT", "mergeout", i, r.info))
     /\ (Expected(i, cfg) = st   \/ Say("DRIFT", "state", i, DiffFields(Expected(i, cfg), st)))
-    /\ (~cfg.sep.on \/ BlobChecks(i, r))
+    /\ (~cfg.sep.on \/ BlobChecks(i, r, cfg))
     /\ (~cfg.sep.on \/ BlobConforms(i, cfg)
           \/ Say("DRIFT", "blob", i, <<r.st.hist[Len(r.st.hist)].blobs, r.st.hist[Len(r.st.hist)].gc,
                                        BlobExpected(i, cfg)>>))
@@ -587,13 +604,14 @@ CheckLine(i, a, cfg, prev) ==
 \* trace line of the behaviour's reset
 CfgOf(r, at) == [sep |-> [on |-> r.op.blob, big |-> Range(r.op.big)], rules |-> r.op.filter,
                  fl |-> r.op.fault_line, fb |-> at, bcfg |-> r.op.bcfg,
-                 conc |-> "conc" \in DOMAIN r.op]
-Init == l = 0 /\ A = AInit /\ C = [sep |-> NoSep, rules |-> <<>>, fl |-> 0, fb |-> 0, bcfg |-> [thr |-> 0, target |-> 0, stale |-> 0, cutoff |-> 0], conc |-> FALSE] /\ P = AInit /\ F = [on |-> FALSE]
+                 conc |-> "conc" \in DOMAIN r.op, bd |-> {}]
+Init == l = 0 /\ A = AInit /\ C = [sep |-> NoSep, rules |-> <<>>, fl |-> 0, fb |-> 0, bcfg |-> [thr |-> 0, target |-> 0, stale |-> 0, cutoff |-> 0], conc |-> FALSE, bd |-> {}] /\ P = AInit /\ F = [on |-> FALSE]
 
 Next ==
     /\ l < Len(Rec)
     /\ l' = l + 1
-    /\ C' = IF Rec[l + 1].op.op = "reset" THEN CfgOf(Rec[l + 1], l + 1) ELSE C
+    /\ C' = IF Rec[l + 1].op.op = "reset" THEN CfgOf(Rec[l + 1], l + 1)
+            ELSE IF C.sep.on THEN [C EXCEPT !.bd = BdNext(@, l + 1)] ELSE C
     /\ LET r == Rec[l + 1]
            faultLine == C'.fl # 0 /\ l + 1 = C'.fb + C'.fl - 1 /\ r.rk = "err" /\ PreWF(l + 1)
            \* C16: a reopen right after the failed call (only snapshot releases in between) may
